@@ -1,7 +1,7 @@
-(* Property C08 (TLS over TCP) -- statements only. *)
+(* Property C08 -- statements only: TLS over TCP (C08_tls ...) and QUIC (C08_quic ...). *)
 From Coq Require Import ZArith List Bool.
 From Coq Require String.
-Require Import PyLib SuiteTypes Crypto KeySchedule Packet Reassembly Decryptor TlsSession OutputBuilder Frames Main SessionP C08P QuicAppendP.
+Require Import PyLib SuiteTypes Crypto KeySchedule Packet Reassembly Decryptor TlsSession OutputBuilder Frames Main SessionP C08P QuicAppendP QuicIdP QuicCutP.
 Import ListNotations.
 Open Scope Z_scope.
 
@@ -41,3 +41,23 @@ Theorem C08_quic_session_appends : forall C keylog ftable s p dcid ver s',
   QuicSession.quic_handle_packet C keylog ftable s p dcid ver = Ok s' -> prefix (QuicSession.qs_output s) (QuicSession.qs_output s').
 Proof. exact QuicAppendP.quic_session_appends. Qed.
 Print Assumptions C08_quic_session_appends.
+
+(* QUIC, the whole run: cut the capture after any item (TLS and QUIC traffic mixed, decryption-secrets blocks anywhere).  The run of
+   the cut capture succeeds whenever the full run does; every QUIC session of the cut run is a session of the full run at the same
+   position of the session list, with the same identity (addresses, hardware addresses, IP version); the frames it has collected
+   are a prefix of those the full run collects for it; and so is, per direction, with and without -a, the byte stream of the
+   datagrams built from them: extending a capture never retracts or alters what was exportable. *)
+Theorem C08_quic : forall C o ftable init items1 items2 g2,
+  fold_left (read_item C o ftable) (items1 ++ items2) (Ok init) = Ok g2 ->
+  exists g1, fold_left (read_item C o ftable) items1 (Ok init) = Ok g1 /\
+    exists l extra, g_quic g2 = l ++ extra /\
+      Forall2 (fun s1 s2 => qid s2 = qid s1 /\ prefix (QuicSession.qs_output s1) (QuicSession.qs_output s2) /\
+                            forall meta dir, prefix (qstream meta dir s1) (qstream meta dir s2)) (g_quic g1) l.
+Proof. exact quic_capture_cut. Qed.
+Print Assumptions C08_quic.
+
+(* the identity of a QUIC session never changes *)
+Theorem C08_quic_session_identity : forall C keylog ftable s p dcid ver s',
+  QuicSession.quic_handle_packet C keylog ftable s p dcid ver = Ok s' -> qid s' = qid s.
+Proof. exact quic_session_identity. Qed.
+Print Assumptions C08_quic_session_identity.
